@@ -771,6 +771,7 @@ def apply_edit(sg, root, retired):
                 if enc == "m" and r.random() < 0.25:
                     big = [i for i in (255, 256, 65535, 65536, 4294967295) if i not in used and i >= idx]
                     if big: idx = r.choice(big)
+                if idx > 4294967295: continue          # the index space of this body is exhausted at the top (a field sits at 2^32-1)
                 fields.insert(r.randrange(len(fields) + 1), new_opt_field(sg, idx))
                 return new, f"add optional field at new index {idx}"
             if kind == "add_gap":
